@@ -46,7 +46,8 @@ struct Exec {
     S.push(); S.add(cond); auto r = S.check();
     if (r == z3::sat && mout) *mout = std::make_shared<z3::model>(S.get_model());
     S.pop();
-    ST.queries++; ST.solverSec += std::chrono::duration<double>(std::chrono::steady_clock::now() - t0).count();
+    { double dt = std::chrono::duration<double>(std::chrono::steady_clock::now() - t0).count(); ST.queries++; ST.solverSec += dt;
+      if (OPT.verbose && dt > 2.0) { std::string q = cond.to_string(); errs() << "[vpsx] slow query " << dt << "s result=" << (r == z3::sat ? "sat" : r == z3::unsat ? "unsat" : "unknown") << " pc=" << st.pc.size() << " cond=" << q.substr(0, 600) << "\n"; } }
     if (r == z3::unknown) throw Unsupported{"solver returned unknown: " + S.reason_unknown()};
     return r == z3::sat;
   }
@@ -104,9 +105,9 @@ struct Exec {
   }
   uint64_t concPtr(State& st, const Val& p) {
     if (!p.sym) return p.c.getZExtValue();
-    z3::expr e = *p.e; sync(st); S.push(); std::vector<uint64_t> vals;
+    z3::expr e = *p.e; sync(st); S.push(); std::vector<uint64_t> vals; auto tq0 = std::chrono::steady_clock::now();
     while (true) { ST.queries++; auto r = S.check(); if (r == z3::unknown) { S.pop(); throw Unsupported{"solver unknown (pointer enumeration)"}; } if (r != z3::sat) break; auto m = S.get_model(); uint64_t v = m.eval(e, true).get_numeral_uint64(); vals.push_back(v); S.add(e != bvc(v, e.get_sort().bv_size())); if (vals.size() > 256) { S.pop(); throw Unsupported{"symbolic pointer/size with >256 targets"}; } }
-    S.pop();
+    S.pop(); ST.solverSec += std::chrono::duration<double>(std::chrono::steady_clock::now() - tq0).count();
     if (vals.empty()) throw PathEnd{};
     for (size_t i = 1; i < vals.size(); i++) { State s2 = st; s2.pc.push_back(e == bvc(vals[i], e.get_sort().bv_size())); s2.wit.reset(); s2.stack.back().it = curIt; s2.nforks++; curOut->push_back(std::move(s2)); ST.forks++; }
     st.pc.push_back(e == bvc(vals[0], e.get_sort().bv_size())); st.wit.reset(); if (vals.size() > 1) st.nforks++;
